@@ -29,17 +29,21 @@ def shift_value(N):
     small = st.integers(-4, 4).map(float)
     fr = st.tuples(st.integers(-big - 1, big + 1), st.integers(1, 2**20 - 1)).map(lambda t: t[0] + t[1] / 2**20)
     fr_small = st.tuples(st.integers(-3, 2), st.integers(1, 2**20 - 1)).map(lambda t: t[0] + t[1] / 2**20)
-    return st.one_of(small, ints, fr, fr_small, st.just(0.0))
+    return st.one_of(small, ints, fr, fr_small, st.just(0.0), st.just(-0.0))
 
 
 @st.composite
-def shift_spec(draw, N, ss, forms=("int", "float", "arr0", "time", "arr", "arr", "arr_time")):
+def shift_spec(draw, N, ss, forms=("int", "float", "arr0", "time", "arr", "arr", "arr_time", "list", "npfloat32", "npint")):
     form = draw(st.sampled_from(list(forms)))
     val = shift_value(N)
     if form == "int":
         return {"form": form, "vals": int(draw(st.integers(-N - 3, N + 3)))}
+    if form == "npint":
+        return {"form": form, "vals": int(draw(st.integers(-N - 3, N + 3)))}
+    if form == "npfloat32":
+        return {"form": form, "vals": float(np.float32(draw(val)))}
     if form in ("float", "arr0", "time") or not ss:
-        if form in ("arr", "arr_time"):
+        if form in ("arr", "arr_time", "list"):
             form = "arr0"
         return {"form": form, "vals": draw(val)}
     k = draw(st.integers(1, len(ss)))
@@ -67,6 +71,12 @@ def mk_shift_arg(sh, z):
         return float(sh["vals"]), vals, False
     if form in ("arr0", "arr"):
         return vals, vals, False
+    if form == "list":
+        return vals.tolist(), vals, False  # "array-like"
+    if form == "npint":
+        return np.int64(sh["vals"]), vals, False
+    if form == "npfloat32":
+        return np.float32(sh["vals"]), vals, False
     # time forms
     q = (vals / z.sample_rate).to(u.s)
     eff = np.asarray((q * z.sample_rate).to_value(u.one), dtype=np.float64)
@@ -242,7 +252,7 @@ def run_hist(case, stt):
             cur["sig"]["data"] = {"kind": "noise", "seed": seed}
         elif kind == "shift":
             cur["shift"]["vals"] = (np.array(cur["shift"]["vals"], dtype=float) * fac).tolist()
-            if cur["shift"]["form"] == "int":
+            if cur["shift"]["form"] in ("int", "npint", "npfloat32"):
                 cur["shift"]["form"] = "float"
         elif kind == "dtype":
             allowed = [d for d in G.CLASS_DTYPES[cur["sig"]["cls"]] if d in FLOATS]
@@ -250,7 +260,7 @@ def run_hist(case, stt):
         elif kind == "form":
             f = cur["shift"]["form"]
             cur["shift"]["form"] = {"float": "time", "time": "float", "arr": "arr_time", "arr_time": "arr", "arr0": "time",
-                                    "int": "time"}[f]
+                                    "int": "time", "list": "arr", "npint": "float", "npfloat32": "float"}[f]
         run_ts(cur, stt)
         stt.label("hist_" + kind)
     stt.nt(len(case["steps"]) >= 2)
